@@ -66,8 +66,9 @@ def run_case(case):
     XA = (np.kron(pA, Ib) + np.kron(Ip, rA)) > 0
     # symmetric, empty diagonal, positive finite
     for name, M in (("adjacency", A.astype(float)), ("borders", B), ("distances", D)):
-        if not np.allclose(M, M.T, rtol=1e-12, atol=0):     # mirror-image faces are computed separately: 1-ulp noise
-            bad = np.argwhere(~np.isclose(M, M.T, rtol=1e-12, atol=0))
+        # mirror-image faces are computed separately: rounding noise of ~1e-16 absolute (5e-11 relative on a 1e-5 sliver)
+        if not np.allclose(M, M.T, rtol=1e-9, atol=1e-12):
+            bad = np.argwhere(~np.isclose(M, M.T, rtol=1e-9, atol=1e-12))
             i, j = bad[0].tolist()
             vs.append(viol(pre + f"|{name}|asymmetric", f"{name}: {len(bad)} asymmetric entries, first ({i},{j}) = cells "
                            f"(pos {i // n_b}, rot {i % n_b}) / (pos {j // n_b}, rot {j % n_b})", case,
@@ -166,6 +167,10 @@ def cases(tier):
                         if tier == "thorough" and fi > 0 and ti == 2:
                             continue
                         out.append({"b": b, "o": o, "t": t, "cartesian": cart, "f": f})
+    # rotation grids known to contain sliver faces (tiny borders must stay on the common pattern)
+    for b in ("randomQ_20", "randomQ_22") + (("randomQ_36", "randomQ_40") if tier == "thorough" else ()):
+        for o, t, cart, f in (("1", "[0.1,0.2]", False, 1), ("ico_4", "[0.1,0.2]", False, 2), ("cube3D_6", "[0.2,0.3]", True, 0.5)):
+            out.append({"b": b, "o": o, "t": t, "cartesian": cart, "f": f})
     return out
 
 
